@@ -753,6 +753,9 @@ pub enum C19Case {
     ToolGenerated { extra: usize, threads: usize },
     /// the bedtobigbed tool with --autosql
     ToolSupplied { idx: usize },
+    /// the supplied schema file starts with a byte order mark (as Windows editors save it): the
+    /// text is stored as it is, mark included (what the field count is then is not prescribed)
+    ToolSuppliedBom { idx: usize, stdin: bool },
     /// the bedtobigbed tool reading the BED from standard input (spelling 0..3 of the input
     /// argument), with --autosql (schema idx) or without
     ToolStdin { idx: Option<usize>, spelling: usize, extra: usize },
@@ -982,6 +985,11 @@ impl Check for C19 {
                 v.push(C19Case::ToolStdin { idx: Some(idx), spelling, extra: 1 });
             }
         }
+        for idx in [0usize, 2, 4] {
+            for stdin in [false, true] {
+                v.push(C19Case::ToolSuppliedBom { idx, stdin });
+            }
+        }
         for idx in 0..supplied_schemas().len() {
             v.push(C19Case::Py { idx: Some(idx), extra: 1 + idx % 3 });
         }
@@ -1066,6 +1074,10 @@ impl Check for C19 {
             C19Case::ToolSupplied { idx } => {
                 let (text, n) = supplied_schemas()[*idx].clone();
                 crate::clifam::c19_tool(1, Some((text, n)), 2, out)
+            }
+            C19Case::ToolSuppliedBom { idx, stdin } => {
+                let (text, _) = supplied_schemas()[*idx].clone();
+                crate::clifam::c19_tool_from(1, Some((format!("\u{feff}{}", text), usize::MAX)), 2, if *stdin { Some("-") } else { None }, out)
             }
             C19Case::Py { idx, extra } => {
                 let schema = idx.map(|i| {
